@@ -575,9 +575,14 @@ func (a *Agent) handleUDPOpenAck(peerID identity.AgentID, frame *protocol.Frame)
 		return
 	}
 
-	// Compute session key from the ephemeral keys
+	// Compute session key from the ephemeral keys. An ack without a key is a
+	// failed open: continuing would send the datagrams in plaintext.
 	var zeroKey [protocol.EphemeralKeySize]byte
-	if ack.EphemeralPubKey != zeroKey {
+	if ack.EphemeralPubKey == zeroKey {
+		dest.closePendingOpen(fmt.Errorf("UDP_OPEN_ACK without ephemeral key"))
+		return
+	}
+	{
 		// Compute shared secret using our private key and remote public key
 		sharedSecret, err := crypto.ComputeECDH(dest.EphemeralPrivKey, ack.EphemeralPubKey)
 		if err != nil {
